@@ -2,6 +2,7 @@ import IbcVerif.Driver.RateLimit
 import IbcVerif.Driver.Callbacks
 import IbcVerif.Driver.Ica
 import IbcVerif.Driver.Gmp
+import IbcVerif.Driver.Pfm
 
 def main (args : List String) : IO UInt32 := do
   match args with
@@ -9,6 +10,7 @@ def main (args : List String) : IO UInt32 := do
   | ["callbacks"] => IbcVerif.Driver.Callbacks.main; return 0
   | ["ica"] => IbcVerif.Driver.Ica.main; return 0
   | ["gmp"] => IbcVerif.Driver.Gmp.main; return 0
+  | ["pfm"] => IbcVerif.Driver.Pfm.main; return 0
   | _ =>
     IO.eprintln "usage: appsmodel <engine>   (engines: ratelimit, callbacks, ica, gmp, pfm)"
     return 2
